@@ -102,7 +102,7 @@ def run(ctx):
     # ---------------- R2 writer / reader agreement
     r2 = chk.rule("C09.R2", "reader and writer agree on path getter and type; the write truncates",
                   "a new context created over the same user-data directory loads what was stored; the store is always a JSON object of strings")
-    nb = prog.body(R["new"])
+    nb = _roles.ib(prog, R["new"])          # loading helpers (possibly in another module) and combinator closures spliced in
     wpath = rpath = None
     wty = rty = None
     for (bb, t) in writes:
@@ -151,6 +151,19 @@ def run(ctx):
                     subs = (x.t.get("callee") or {}).get("substs") or []
                     rty = [s for s in subs if "HashMap" in s]
                     rty = rty[0] if rty else None
+        if rpath is None or rty is None:
+            # the value may reach the field through locals the expression engine keeps opaque: fall back to the constructor's calls
+            for (bb_, t_) in nb.calls():
+                n_ = callee_name(t_)
+                if n_.startswith("serde_json::from_"):
+                    subs = (t_.get("callee") or {}).get("substs") or []
+                    hm = [s_ for s_ in subs if "HashMap" in s_ and s_ == R["fields"][store]]
+                    if hm and rty is None:
+                        rty = hm[0]
+                        src_ = nb.expr_operand(t_["args"][0])
+                        g_ = contains_call(src_, lambda m: m.startswith("config::Config::get_user"))
+                        if g_ is not None and rpath is None:
+                            rpath = g_.a[0]
         if wpath and rpath and wpath == rpath:
             r2.ok("path", "both use %s" % wpath.split("::")[-1])
         else:
@@ -289,6 +302,64 @@ def run(ctx):
         if not ins:
             r7.ok("memo-value", "the look-up does not write the learned map")
     r7.floor(1, "look-up")
+
+    # ---------------- R8 only a commit writes the learned map
+    r8 = chk.rule("C09.R8", "the learned map is written by the commit only: a selection derived for a suffixed word is not stored as if the user had chosen it",
+                  "a suffixed word follows the learned choice of its base unless the suffixed text has a learned choice of its own")
+    entry8 = [R["get_suggestion"], R["backspace"]]
+    n8 = 0
+    for fk in sorted(prog.reach(entry8, foreign_trait_impls=False)):
+        fb = prog.body(fk)
+        for (bb, t) in fb.calls():
+            n = callee_name(t)
+            if not t["args"] or t["args"][0]["k"] == "const" or phonetic.STRMAP_TY not in t["args"][0]["place"]["ty"] or not t["args"][0]["place"]["ty"].startswith("&mut"):
+                continue
+            if any(n.endswith(x) for x in ("::insert", "::remove", "::clear", "::entry", "::retain", "::extend", "::get_mut", "::drain")):
+                tgt = fb.expr_operand(t["args"][0])
+                # the user auto-correct map has the same type: only the learned store (the method's field, or a parameter fed from it) counts
+                spx = self_path(tgt)
+                if spx is not None and spx[-1:] == (R["user_autocorrect"],):
+                    continue
+                n8 += 1
+                r8.violation("writer:%s@%s" % (n.split("::")[-1], fk.split("::")[-1]), "the key / back-space path calls %s on the learned map: an entry the user never committed is stored "
+                             "(and saved with the next commit); when the user later changes the choice for the base word the stale derived entry still wins" % n.split("::")[-1],
+                             site_of(fb, bb))
+    if n8 == 0:
+        r8.ok("writers", "no function reachable from the key and back-space events writes the learned map")
+    r8.floor(1, "writers")
+
+    # ---------------- R9 a committed raw-text candidate can be found again
+    r9 = chk.rule("C09.R9", "the look-up can reproduce every kind of candidate the user can commit — also the raw typed text offered as the English candidate",
+                  "the next time the same text is typed the preselected index points at that same candidate text")
+    if len(lk) == 1:
+        lb9 = prog.body(lk[0])
+        # what the look-up compares the candidates with
+        cmp_parts = None
+        for (bb, t) in lb9.calls():
+            pass
+        from engine.analyses import format_parts as _fp
+        sel_defs = []
+        for (i, j, st) in lb9.stmts():
+            if st["k"] == "assign" and not st["place"]["p"] and lb9.locals[st["place"]["l"]]["ty"] == "std::string::String":
+                fp9 = _fp(lb9, lb9.expr_rvalue(st["rv"]))
+                if fp9 and len(fp9) == 3:
+                    sel_defs.append(fp9)
+        for (bb, t) in lb9.calls():
+            if not t["dest"]["p"] and t["dest"]["ty"] == "std::string::String":
+                fp9 = _fp(lb9, E("call", callee_name(t), tuple(lb9.expr_operand(a) for a in t["args"]), bb, t=t))
+                if fp9 and len(fp9) == 3:
+                    sel_defs.append(fp9)
+        raw_inputs = [i for i, ty in enumerate(prog.fns[lk[0]].get("inputs") or [], start=1) if ty == "&str"]
+        wrapped = [fp for fp in sel_defs if fp[0][0] == "val" and fp[2][0] == "val" and acc.get(getattr(peel_conv(fp[0][1]), "a", [None])[0]) == "preceding"
+                   and acc.get(getattr(peel_conv(fp[2][1]), "a", [None])[0]) == "trailing"]
+        if not wrapped:
+            r9.undecidable("raw-english", "the text the look-up compares candidates with was not found as preceding ++ selection ++ trailing", common.fn_line(prog, lk[0]))
+        elif raw_inputs:
+            r9.ok("raw-english", "the look-up also receives the raw typed text")
+        else:
+            r9.violation("raw-english", "the look-up compares candidates with converted-preceding ++ stored ++ converted-trailing only and never sees the raw typed text: the English "
+                         "candidate (the raw text, punctuation unconverted) is found again only when the word has no punctuation around it", common.fn_line(prog, lk[0]))
+    r9.floor(1, "raw-english")
 
     # ---------------- R5 alphabet agreement
     r5 = chk.rule("C09.R5", "every character the wrapping stage can add to a candidate is stripped by the splitter",
